@@ -1296,6 +1296,8 @@ class DocutilsRenderer(RendererProtocol):
         bibliofields = get_language(language_code).bibliographic_fields
 
         for key, value in data.items():
+            # YAML keys can be of any hashable type (e.g. integers, dates or binary data)
+            key = str(key)
             if not isinstance(value, str | int | float | date | datetime):
                 # note, `default` handles values that YAML can produce,
                 # but JSON cannot represent (e.g. dates, sets or binary data)
